@@ -89,6 +89,7 @@ type fnVC struct {
 	ghostDone bool
 	entrySeq  map[*ssa.BasicBlock]int
 	addrSpace string
+	privCache map[*ssa.Alloc]bool
 }
 
 func (v *fnVC) fresh(prefix string) string {
@@ -132,8 +133,10 @@ func (v *fnVC) newConst(prefix, sort string) T {
 func (v *fnVC) oblige(kind, text string, goal T, pos token.Pos) {
 	label := text
 	if strings.HasPrefix(kind, "rte.") {
-		if v.con != nil && v.con.NoNil && kind == "rte.nil" {
-			v.assume(implies(v.reach[v.blk], goal))
+		if v.con != nil && ((v.con.NoNil && kind == "rte.nil") || v.con.NoRte) {
+			if kind != "rte.conv" {
+				v.assume(implies(v.reach[v.blk], goal))
+			}
 			return
 		}
 		// name run-time-error obligations by the source line, not by SSA temporaries
@@ -320,7 +323,7 @@ func (v *fnVC) loopFrame(mems []string) {
 // frameCheckTree: a callee that may modify the whole tree of t is allowed only if the caller's
 // frame contains tree(t) for the same t.
 func (v *fnVC) frameCheckTree(t T, text string, pos token.Pos) {
-	if v.con == nil || (len(v.con.Modifies) == 0 && !v.con.Pure) {
+	if _, claimed := v.frameAlts("0"); !claimed {
 		return
 	}
 	env := v.entryEnv()
@@ -481,6 +484,103 @@ func (v *fnVC) computeLocalOnly() {
 					v.localOnly[al] = true
 				}
 			}
+		}
+	}
+}
+
+// privateCell: the cell of a source variable whose address never reaches a callee: it is only loaded,
+// stored, selected from, or bound into closures that are themselves only deferred or called on the spot.
+// No call can modify such a cell except those closures, which are applied by their contracts.
+func (v *fnVC) privateCell(al *ssa.Alloc) bool {
+	if !isVarCell(al) {
+		return false
+	}
+	if r, ok := v.privCache[al]; ok {
+		return r
+	}
+	var ok func(val ssa.Value, depth int) bool
+	ok = func(val ssa.Value, depth int) bool {
+		refs := val.Referrers()
+		if refs == nil || depth > 4 {
+			return false
+		}
+		for _, r := range *refs {
+			switch x := r.(type) {
+			case *ssa.DebugRef:
+			case *ssa.UnOp:
+				if x.Op != token.MUL {
+					return false
+				}
+			case *ssa.Store:
+				if x.Val == val {
+					return false
+				}
+			case *ssa.FieldAddr:
+				if !ok(x, depth+1) {
+					return false
+				}
+			case *ssa.IndexAddr:
+				if x.X != val || !ok(x, depth+1) {
+					return false
+				}
+			case *ssa.MakeClosure:
+				crefs := x.Referrers()
+				if crefs == nil {
+					return false
+				}
+				for _, cr := range *crefs {
+					switch y := cr.(type) {
+					case *ssa.Defer:
+						if y.Call.Value != x {
+							return false
+						}
+					case *ssa.Call:
+						if y.Call.Value != x {
+							return false
+						}
+					case *ssa.DebugRef:
+					default:
+						return false
+					}
+				}
+			default:
+				return false
+			}
+		}
+		return true
+	}
+	if v.privCache == nil {
+		v.privCache = map[*ssa.Alloc]bool{}
+	}
+	r := ok(al, 0)
+	v.privCache[al] = r
+	return r
+}
+
+// keepPrivateCells: after a havoc from old to the current memories, private cells keep their content.
+func (v *fnVC) keepPrivateCells(old map[string]T) {
+	for _, ar := range v.allocs {
+		if ar.alloc == nil || v.localOnly[ar.alloc] || !v.privateCell(ar.alloc) {
+			continue
+		}
+		if ar.blk != v.blk && !v.anc[v.blk][ar.blk] {
+			continue
+		}
+		elem := ar.alloc.Type().Underlying().(*types.Pointer).Elem()
+		for _, lp := range v.leafPaths(elem) {
+			cur, ok := v.cur[lp.mem]
+			if !ok {
+				continue
+			}
+			o, ok2 := old[lp.mem]
+			if !ok2 {
+				o = v.mem0(lp.mem)
+			}
+			if cur == o {
+				continue
+			}
+			addr := lp.wrap(ar.t)
+			v.assume(eq(sel(cur, addr), sel(o, addr)))
 		}
 	}
 }
